@@ -58,6 +58,17 @@ type c13Case struct {
 	evalMillis int64
 }
 
+// The reverse direction is compared only where the root cause of a lossy round trip can be
+// attributed by experiment (c13_confirm_rev.go): schemas of at most 800 characters without a
+// reference to the root ("#": Extract then introduces a hidden `_schema` field and Generate a
+// `$defs._schema` wrapper, where several lossy effects pile up).  Larger / self-referential
+// schemas take part in the forward direction only (counted as reverse:skipped:…).
+const c13ReverseMaxLen = 800
+
+func c13ReverseSkipped(cs *c13Case) bool {
+	return len(cs.schemaTxt) > c13ReverseMaxLen || strings.Contains(cs.schemaTxt, `"$ref":"#"`)
+}
+
 func c13ErrKind(err error) string {
 	s := err.Error()
 	switch {
@@ -86,7 +97,10 @@ func c13ErrKind(err error) string {
 func c13Validate(iv, sv cue.Value) (res string) {
 	defer func() {
 		if p := recover(); p != nil {
-			res = "panic"
+			res = "panic:other"
+			if strings.Contains(fmt.Sprint(p), "is *errors.wrapped, not *adt.ValueError") {
+				res = "panic:disjunctError-wrapped-not-ValueError"
+			}
 		}
 	}()
 	if iv.Unify(sv).Validate(cue.Concrete(true)) == nil {
@@ -345,6 +359,11 @@ func c13Emit(c *Cfg, cs *c13Case) {
 			nTrue++
 		}
 		c.Count("verdict:" + v)
+		if strings.HasPrefix(v, "panic:") {
+			// a panic out of Value.Unify / Validate: never acceptable, reported on its own
+			c.Direct(false, "extract-"+v, "instance.Unify(schema).Validate panicked ("+v+") on "+cs.schemaTxt+" with "+it, map[string]string{"schema": cs.schemaTxt, "instance": it})
+			continue
+		}
 		tag := ""
 		if cs.class != nil {
 			tag = cs.class[i]
@@ -357,6 +376,12 @@ func c13Emit(c *Cfg, cs *c13Case) {
 	c.Case(cs.schemaTxt, nTrue > 0 && nTrue < len(cs.instTxt))
 	if cs.genTxt == "" {
 		c.Count("reverse:skipped:" + cs.genSkip)
+		return
+	}
+	if c13ReverseSkipped(cs) {
+		// the reverse direction is compared only for schemas small enough for the root cause of a
+		// lossy round trip to be attributed by experiment (c13_confirm_rev.go)
+		c.Count("reverse:skipped:large-or-self-referential")
 		return
 	}
 	c.Count("reverse:compared")
